@@ -98,8 +98,11 @@ def run(ck):
             fid = None
             for k in ck.known:
                 mt = k.get("match", {})
-                if mt.get("kind") == kind and re.search(mt.get("knob_regex", ".*"), knob) and re.search(mt.get("class_regex", ".*"), cls):
-                    fid = k["id"]
+                if mt.get("needs_helper") and "fn hfun" not in s:
+                    continue
+                if re.fullmatch(mt.get("kind", "$^").strip("^$") if mt.get("kind", "").startswith("^") else re.escape(mt.get("kind", "")), kind) \
+                        and re.search(mt.get("knob_regex", ".*"), knob) and re.search(mt.get("class_regex", ".*"), cls):
+                    fid = fid or k["id"]
             key = (kind, knob, cls)
             if fid is None and key in reported:
                 continue
